@@ -146,7 +146,7 @@ func TestC04(t *testing.T) {
 
 func c04Run(c *mon.Case, p c04P) {
 	c.Bubble(func() {
-		e := &env{c: c, d: memds.New(), cfg: p.Cfg, chain: newChain(p.Chain), P: map[uint64]bool{}}
+		e := &env{c: c, d: memds.New(), cfg: p.Cfg, chain: newChain(p.Chain), P: map[uint64]bool{}, strictUnstored: true}
 		if err := e.open(); err != nil {
 			c.Class("config-not-accepted %s", p.Cfg)
 			c.Trivial()
